@@ -18,6 +18,8 @@ pub struct SyncEvent {
     pub len: u64,
     pub is_dir: bool,
     pub data_only: bool,
+    /// True for an intercepted `unlink` (then `len` is 0).
+    pub unlink: bool,
 }
 
 static TOTAL: AtomicU64 = AtomicU64::new(0);
@@ -50,6 +52,7 @@ fn note(fd: libc::c_int, data_only: bool) {
                     len,
                     is_dir,
                     data_only,
+                    unlink: false,
                 });
             }
         }
@@ -76,11 +79,38 @@ pub unsafe extern "C" fn fdatasync(fd: libc::c_int) -> libc::c_int {
     libc::syscall(libc::SYS_fdatasync, fd) as libc::c_int
 }
 
+/// Interposed `unlink(2)` (what `std::fs::remove_file` calls): recorded, then forwarded.
+///
+/// # Safety
+/// Same contract as libc's `unlink`.
+#[no_mangle]
+pub unsafe extern "C" fn unlink(path: *const libc::c_char) -> libc::c_int {
+    let active = REC.with(|r| r.try_borrow().map(|g| g.is_some()).unwrap_or(false));
+    if active && !path.is_null() {
+        let p = std::ffi::CStr::from_ptr(path).to_string_lossy().to_string();
+        REC.with(|r| {
+            if let Ok(mut g) = r.try_borrow_mut() {
+                if let Some(v) = g.as_mut() {
+                    v.push(SyncEvent {
+                        path: PathBuf::from(p),
+                        len: 0,
+                        is_dir: false,
+                        data_only: false,
+                        unlink: true,
+                    });
+                }
+            }
+        });
+    }
+    libc::syscall(libc::SYS_unlinkat, libc::AT_FDCWD, path, 0) as libc::c_int
+}
+
 /// Forces the interposer object into the link and returns the number of syncs seen so far.
 pub fn init() -> u64 {
     let a = fsync as usize;
     let b = fdatasync as usize;
-    std::hint::black_box((a, b));
+    let c = unlink as usize;
+    std::hint::black_box((a, b, c));
     TOTAL.load(Ordering::Relaxed)
 }
 
@@ -102,7 +132,7 @@ pub fn synced_len(events: &[SyncEvent], path: &std::path::Path) -> Option<u64> {
     events
         .iter()
         .rev()
-        .find(|e| !e.is_dir && e.path == path)
+        .find(|e| !e.is_dir && !e.unlink && e.path == path)
         .map(|e| e.len)
 }
 
@@ -119,7 +149,7 @@ pub fn selftest(dir: &std::path::Path) -> Result<(), String> {
     });
     let _ = std::fs::remove_file(&p);
     let canon = p.canonicalize().unwrap_or(p.clone());
-    match ev.iter().find(|e| e.path == p || e.path == canon) {
+    match ev.iter().find(|e| !e.unlink && (e.path == p || e.path == canon)) {
         Some(e) if e.len == 5 => Ok(()),
         other => Err(format!(
             "fsync interposer did not see File::sync_all (events {ev:?}, match {other:?})"
